@@ -1,4 +1,5 @@
 import N0Verif.Py.Basic
+import N0Verif.Gen.Cp1252
 /-!
   Model of `save_file`, `load_file`, `load_lines` (n0struct/n0struct_files.py) over an
   abstract file system, together with the part of Python's `open()` the three functions use:
@@ -15,7 +16,8 @@ import N0Verif.Py.Basic
   parameter (`Codec`): `enc`/`dec` are the BOM-less body encoder/decoder, `bom` the mark that
   `str.encode(encoding)` puts in front (empty for utf-8, latin-1, cp1252).  The four codecs
   the property quantifies over are defined concretely at the end of the file (used by the
-  driver and validated against CPython by correspondence streams).
+  driver and validated against CPython by correspondence streams); the cp1252 table is not
+  written by hand but generated from the interpreter (`Gen/Cp1252.lean`).
 
   The code modelled is the code **with the fixes `C15-close` and `C15-a` applied**
   (`out_filehandler.close()`: every write reaches the file before `save_file` returns; on the
@@ -385,29 +387,29 @@ def latin1 : Codec :=
     enc := fun s => if s.all isByte then some s else none
     dec := fun b => if b.all isByte then some b else none }
 
-/-- code points of the cp1252 bytes 0x80..0x9F (0 = undefined) -/
-def cp1252High : List Nat :=
-  [0x20AC, 0, 0x201A, 0x0192, 0x201E, 0x2026, 0x2020, 0x2021, 0x02C6, 0x2030, 0x0160, 0x2039, 0x0152, 0, 0x017D, 0,
-   0, 0x2018, 0x2019, 0x201C, 0x201D, 0x2022, 0x2013, 0x2014, 0x02DC, 0x2122, 0x0161, 0x203A, 0x0153, 0, 0x017E, 0x0178]
+/-! #### single-byte table codecs
 
-def cp1252DecByte (b : Char) : Option Char :=
-  let n := b.toNat
-  if n < 0x80 || (0xA0 ≤ n && n < 0x100) then some b
-  else if n < 0xA0 then
-    match cp1252High[n - 0x80]? with
-    | some 0 => none
-    | some cp => some (Char.ofNat cp)
-    | none => none
-  else none
+A charmap codec is given by its decoding table (entry `b` = code point of byte `b`, `none` =
+undefined byte); the encoder is derived from the same table — the first byte holding the code
+point — as CPython derives `encoding_table` from `decoding_table` (`codecs.charmap_build`). -/
 
-def cp1252EncChar (ch : Char) : Option Char :=
-  let n := ch.toNat
-  if n < 0x80 || (0xA0 ≤ n && n < 0x100) then some ch
-  else
-    match cp1252High.idxOf? n with
-    | some i => if n = 0 then none else some (Char.ofNat (0x80 + i))
-    | none => none
+/-- first index, counted from `i`, of the entry holding code point `n` -/
+def tableFind (n : Nat) : List (Option Nat) → Nat → Option Nat
+  | [], _ => none
+  | e :: t, i => if e = some n then some i else tableFind n t (i + 1)
 
-def cp1252 : Codec := { bom := [], enc := fun s => s.mapM cp1252EncChar, dec := fun b => b.mapM cp1252DecByte }
+def tableDecByte (t : List (Option Nat)) (b : Char) : Option Char :=
+  match t[b.toNat]? with
+  | some (some cp) => some (Char.ofNat cp)
+  | _ => none
+
+def tableEncChar (t : List (Option Nat)) (ch : Char) : Option Char :=
+  (tableFind ch.toNat t 0).map Char.ofNat
+
+def tableCodec (t : List (Option Nat)) : Codec :=
+  { bom := [], enc := fun s => s.mapM (tableEncChar t), dec := fun b => b.mapM (tableDecByte t) }
+
+/-- cp1252: the table is generated from the running interpreter (`harness/translate_cp1252.py`) -/
+def cp1252 : Codec := tableCodec Gen.Cp1252.table
 
 end N0.Files
